@@ -1,1 +1,20 @@
-// harnesses for rwlock (included into loom under cfg(loom_verif))
+// crate::rt::rwlock::verif -- C07 (rwlock machine), C01-O4.
+#![allow(dead_code, unused_imports)]
+
+use super::*;
+use crate::rt::verif::{le, max_raw, vharness, vv, vv_raw};
+#[cfg(not(kani))]
+use crate::rt::verif::kani_shim as kani;
+use crate::rt::MAX_THREADS;
+
+pub(crate) fn dependence(p: usize, v: [u16; MAX_THREADS]) {
+    let mut s = State { lock: None, last_access: None, synchronize: Synchronize::new() };
+    if kani::any() {
+        let q: usize = kani::any();
+        s.last_access = Some(Access::new(q, &vv(kani::any())));
+    }
+    s.set_last_access(p, &vv(v));
+    let a = s.last_dependent_access().unwrap();
+    assert!(a.path_id() == p && vv_raw(a.version()) == v);
+    std::mem::forget(s);
+}
